@@ -3,6 +3,7 @@ mod c01;
 mod c02;
 mod c04;
 mod c09;
+mod c10;
 mod c11;
 mod c12;
 mod c16;
@@ -70,6 +71,13 @@ fn props() -> Vec<Prop> {
         thorough_cases: 65,
         gen: c09::gen_case,
         run: c09::run_case,
+    }, Prop {
+        id: "C10",
+        rule: "case = (grammar: JSON schemas with strings under maxLength/pattern/format, hand-written families, random Lark; slice list: general_slices() or a random valid list with nested/overlapping regexes; synthetic vocabulary rich in string-interior tokens; seeded shared history); sliced and unsliced masks compared bit for bit at every state; distinct non-trivial = distinct (grammar, slice list, history) states in which at least one slice was applied",
+        quick_cases: 40,
+        thorough_cases: 400,
+        gen: c10::gen_case,
+        run: c10::run_case,
     }, Prop {
         id: "C11",
         rule: "case = (grammar: hand-written family or random Lark grammar; vocabulary: single-byte / synthetic multi-byte; seeded history of commits, read-only queries, invalidations, clones, rollbacks, resets); at every state the mask is compared with a second computation, with the one after invalidate_bias_cache and with a fresh replay; distinct non-trivial = distinct (grammar, committed tokens) with a mask that is neither a single token nor the whole vocabulary",
